@@ -460,6 +460,41 @@ def gen_daemon(rng, kind="dna", nrec=None):
 
 
 BSIZES = [1, 2, 3, 7, 64, 4096]
+BSWEEP = [1, 2, 3, 4, 5, 6, 7, 8, 9, 10, 11, 12, 13, 15, 16, 17, 31, 32, 33, 63, 64, 65, 100, 127, 128, 129, 255, 256, 257, 511, 512, 513,
+          1000, 1023, 1024, 1025, 2047, 2048, 2049, 4095, 4096, 4097]
+
+
+def pick_B(rng, data, small_ok=True):
+    """read-block size (hook H2) for one session: the whole range 1..4097 is swept (BSWEEP + uniform), with extra weight on the sizes that
+    put a block boundary at a structural position of THIS file: inside / at the end of the first header line (B smaller than, equal to,
+    one more than the header line), at every record start ('>'), at an end-of-line pair (CR | LF), at the end of the file."""
+    n = len(data)
+    r = rng.random()
+    if r < 0.30:
+        B = rng.choice(BSIZES)
+    elif r < 0.55:
+        B = rng.choice(BSWEEP)
+    elif r < 0.65:
+        B = rng.randrange(1, 4098)
+    elif r < 0.75:
+        B = rng.randrange(1, 40)
+    else:
+        marks = [n - 1, n, n + 1]
+        e = data.find(b"\n")
+        if e >= 0:
+            marks += [e - 1, e, e + 1, e + 2, max(1, e // 2)]
+        k = data.find(b"\r\n")
+        if k >= 0:
+            marks += [k, k + 1, k + 2]
+        g, cnt = data.find(b">", 1), 0
+        while g >= 0 and cnt < 6:
+            marks += [g - 1, g, g + 1]
+            g, cnt = data.find(b">", g + 1), cnt + 1
+        marks = [m for m in marks if 1 <= m <= 8192]
+        B = rng.choice(marks) if marks else 1
+    if not small_ok and B < 7:
+        B = rng.choice([7, 64, 4096])
+    return B
 
 
 def fasta_geometry(data):
@@ -951,17 +986,18 @@ def _monitor_c04(case, out):
 
 
 C04_THEOREMS = ["fwd_first_window", "fwd_windows_tile", "rev_first_window", "rev_windows_tile", "rev_offset_brute_force",
-                "addbuf_moves_only_bpos", "loadbuf_ignores_bpos_partial", "nextchar_block_size_independent_partial",
+                "addbuf_moves_only_bpos", "loadbuf_ignores_bpos", "nextchar_block_size_independent",
                 "writeFasta_keeps_residues_partial", "open_block_size_independent", "header_fasta_block_size_independent",
-                "seebuf_is_byte_fold", "buffer_cut_invisible_partial", "readinfo_loop_is_file_fold", "readInfo_block_size_independent",
+                "seebuf_is_byte_fold", "buffer_cut_invisible", "readinfo_loop_is_file_fold", "readInfo_block_size_independent",
                 "readInfo_after_open_block_size_independent",
                 "residue_loop_closed_form", "header_fasta_closed_form", "read_one_record_closed_form", "open_is_openFasta",
-                "read_all_eq_parseFasta", "read_all_block_size_independent",
+                "read_all_eq_parseFasta", "read_all_eq_specFasta", "read_all_block_size_independent",
                 "readInfo_closed_form", "readSequence_closed_form", "read_readInfo_readSequence_agree"]
 C02_THEOREMS = ["loadbuf_total", "nextchar_total", "nextchar_no_fault", "seebuf_total", "inmaps_agree",
                 "read_total", "read_no_fault", "readInfo_total", "readSequence_total", "read_all_total"]
 C07_THEOREMS = ["findSubseq_absent", "findSubseq_out_of_range", "fetchSubseq_absent", "fetchSubseq_start_out_of_range", "findSubseq_cases",
-                "lands_on_start_line", "lands_on_start_residue", "lands_on_start_none", "bplrpl_sound_partial", "bplrpl_unsound_single_line", "bplrpl_unsound_at_init"]
+                "lands_on_start_line", "lands_on_start_residue", "lands_on_start_none", "bplrpl_sound_partial", "bplrpl_unsound_single_line", "bplrpl_unsound_at_init",
+                "echo_eq_scan_bytes", "echo_unset_offsets", "echo_of_scanned_record", "echo_of_read_record"]
 
 
 def _monitor_c07(case, out):
@@ -1402,7 +1438,7 @@ def matrix_case(rng, k):
     nrec = len(meta["recs"])
     for j, abc in enumerate(MATRIX_ABCS):
         call = MATRIX_CALLS[(k // 7 + j) % 5]
-        ops.append("open fmt=%s abc=%s B=%d" % (fmt, abc, 4096 if fmt == "daemon" else rng.choice(BSIZES)))
+        ops.append("open fmt=%s abc=%s B=%d" % (fmt, abc, 4096 if fmt == "daemon" else pick_B(rng, data)))
         if call == "readwin":
             # one window over the whole record, then the call that reports its end, then esl_sq_Reuse() (a record without residues
             # reports its end at once)
@@ -1521,7 +1557,7 @@ def fetchspike_case(rng, k):
     recs = meta["recs"]
     ops = ["file ext=dat hex=" + hx(data)]
     for abc in rng.sample(["text", "dna", "rna", "amino"], 3):
-        B = rng.choice(BSIZES)
+        B = pick_B(rng, data)
         for r in rng.sample(recs, min(len(recs), 2)):
             key = r["acc"] if (r.get("acc") and rng.random() < 0.3) else r["name"]
             # (one failing call ends a session: a fresh session per request)
